@@ -109,7 +109,6 @@ pub struct Rule {
 
 impl Hash for Rule {
     fn hash<H: Hasher>(&self, state: &mut H) {
-        self.id.hash(state);
         self.resource.hash(state);
         self.ref_resource.hash(state);
     }
